@@ -206,4 +206,148 @@ theorem stream_of_harmless_lines_exits_zero (σ : Sess) (inp : List Char)
       simp only [hs]
       exact ih σ'' rest (by omega)
 
+
+/-! ### the whole `go` line: known pairs and unknown tokens in any order -/
+
+/-- one item of a `go` line: a clock / increment keyword with its value token, `movestogo` with its
+    value token, or a single token the engine does not know -/
+inductive GoItem where
+  | wtime (tok : List Char) (v : Int)
+  | btime (tok : List Char) (v : Int)
+  | winc (tok : List Char) (v : Int)
+  | binc (tok : List Char) (v : Int)
+  | movestogo (tok : List Char) (n : Nat)
+  | junk (tok : List Char)
+
+def GoItem.tokens : GoItem → List (List Char)
+  | .wtime t _ => ["wtime".toList, t]
+  | .btime t _ => ["btime".toList, t]
+  | .winc t _ => ["winc".toList, t]
+  | .binc t _ => ["binc".toList, t]
+  | .movestogo t _ => ["movestogo".toList, t]
+  | .junk t => [t]
+
+/-- the value token really is the text of the value; an unknown token is none of the five keywords -/
+def GoItem.OK : GoItem → Prop
+  | .wtime t v => parseI128 t = some v
+  | .btime t v => parseI128 t = some v
+  | .winc t v => parseI128 t = some v
+  | .binc t v => parseI128 t = some v
+  | .movestogo t n => parseUnsigned 32 t = some n
+  | .junk t => t ≠ "wtime".toList ∧ t ≠ "btime".toList ∧ t ≠ "binc".toList ∧ t ≠ "winc".toList ∧ t ≠ "movestogo".toList
+
+/-- what the line means: every keyword sets its field, later occurrences override earlier ones,
+    unknown tokens mean nothing -/
+def GoItem.apply (gt : GameTime) : GoItem → GameTime
+  | .wtime _ v => { gt with wtime := v }
+  | .btime _ v => { gt with btime := v }
+  | .winc _ v => { gt with winc := v }
+  | .binc _ v => { gt with binc := v }
+  | .movestogo _ n => { gt with movestogo := some n }
+  | .junk _ => gt
+
+theorem parseGoAux_items : ∀ (items : List GoItem) (gt : GameTime) (fuel : Nat),
+    (∀ it ∈ items, it.OK) → (items.flatMap GoItem.tokens).length < fuel →
+    parseGoAux fuel (items.flatMap GoItem.tokens) gt = some (items.foldl GoItem.apply gt) := by
+  intro items
+  induction items with
+  | nil =>
+    intro gt fuel _ hf
+    cases fuel with
+    | zero => simp at hf
+    | succ n => rfl
+  | cons it rest ih =>
+    intro gt fuel hok hf
+    have hit := hok it (by simp)
+    have hrest : ∀ x ∈ rest, x.OK := fun x hx => hok x (by simp [hx])
+    simp only [List.flatMap_cons, List.length_append] at hf
+    cases fuel with
+    | zero => omega
+    | succ n =>
+      have hpair : ∀ (key val : List Char) (tl : List (List Char)), (key :: val :: tl).length = tl.length + 2 := by
+        intro _ _ _; simp
+      cases it with
+      | wtime t v =>
+        simp only [GoItem.tokens, List.length_cons, List.length_nil] at hf
+        simp only [List.flatMap_cons, GoItem.tokens, List.cons_append, List.nil_append, List.foldl_cons, GoItem.apply]
+        unfold parseGoAux
+        simp only [if_true]
+        rw [show parseI128 t = some v from hit]
+        simp only [Option.bind_some]
+        exact ih _ n hrest (by omega)
+      | btime t v =>
+        simp only [GoItem.tokens, List.length_cons, List.length_nil] at hf
+        simp only [List.flatMap_cons, GoItem.tokens, List.cons_append, List.nil_append, List.foldl_cons, GoItem.apply]
+        unfold parseGoAux
+        have e1 : ("btime".toList = "wtime".toList) = False := by decide
+        simp only [e1, if_false, if_true]
+        rw [show parseI128 t = some v from hit]
+        simp only [Option.bind_some]
+        exact ih _ n hrest (by omega)
+      | winc t v =>
+        simp only [GoItem.tokens, List.length_cons, List.length_nil] at hf
+        simp only [List.flatMap_cons, GoItem.tokens, List.cons_append, List.nil_append, List.foldl_cons, GoItem.apply]
+        unfold parseGoAux
+        have e1 : ("winc".toList = "wtime".toList) = False := by decide
+        have e2 : ("winc".toList = "btime".toList) = False := by decide
+        have e3 : ("winc".toList = "binc".toList) = False := by decide
+        simp only [e1, e2, e3, if_false, if_true]
+        rw [show parseI128 t = some v from hit]
+        simp only [Option.bind_some]
+        exact ih _ n hrest (by omega)
+      | binc t v =>
+        simp only [GoItem.tokens, List.length_cons, List.length_nil] at hf
+        simp only [List.flatMap_cons, GoItem.tokens, List.cons_append, List.nil_append, List.foldl_cons, GoItem.apply]
+        unfold parseGoAux
+        have e1 : ("binc".toList = "wtime".toList) = False := by decide
+        have e2 : ("binc".toList = "btime".toList) = False := by decide
+        simp only [e1, e2, if_false, if_true]
+        rw [show parseI128 t = some v from hit]
+        simp only [Option.bind_some]
+        exact ih _ n hrest (by omega)
+      | movestogo t m =>
+        simp only [GoItem.tokens, List.length_cons, List.length_nil] at hf
+        simp only [List.flatMap_cons, GoItem.tokens, List.cons_append, List.nil_append, List.foldl_cons, GoItem.apply]
+        unfold parseGoAux
+        have e1 : ("movestogo".toList = "wtime".toList) = False := by decide
+        have e2 : ("movestogo".toList = "btime".toList) = False := by decide
+        have e3 : ("movestogo".toList = "binc".toList) = False := by decide
+        have e4 : ("movestogo".toList = "winc".toList) = False := by decide
+        simp only [e1, e2, e3, e4, if_false, if_true]
+        rw [show parseUnsigned 32 t = some m from hit]
+        simp only [Option.bind_some]
+        exact ih _ n hrest (by omega)
+      | junk t =>
+        obtain ⟨h1, h2, h3, h4, h5⟩ := hit
+        simp only [GoItem.tokens, List.length_cons, List.length_nil] at hf
+        simp only [List.flatMap_cons, GoItem.tokens, List.cons_append, List.nil_append, List.foldl_cons, GoItem.apply]
+        -- an unknown token is skipped alone; if it is the very last token the loop ends
+        cases hr : rest.flatMap GoItem.tokens with
+        | nil =>
+          have hfold : rest.foldl GoItem.apply gt = gt := by
+            cases rest with
+            | nil => rfl
+            | cons r rs =>
+              exfalso
+              simp only [List.flatMap_cons] at hr
+              cases r <;> simp [GoItem.tokens] at hr
+          rw [hfold]
+          rfl
+        | cons nxt tl =>
+          rw [go_unknown_token_skipped n t nxt tl gt h1 h2 h3 h4 h5, ← hr]
+          exact ih gt n hrest (by rw [hr] at hf ⊢; simp only [List.length_cons] at hf ⊢; omega)
+
+/-- **the `go` line**: keywords with their values and unknown tokens in ANY order and number — the
+    parse is the fold of the known pairs (a later occurrence overrides an earlier one), unknown tokens
+    are skipped wherever they stand, also between pairs and at the end -/
+theorem go_line_is_parsed_as_its_known_pairs (items : List GoItem) (hok : ∀ it ∈ items, it.OK) :
+    parseGoCommand ("go".toList :: items.flatMap GoItem.tokens) = some (items.foldl GoItem.apply {}) := by
+  have hgo : GoItem.OK (.junk "go".toList) := by
+    unfold GoItem.OK
+    refine ⟨by decide, by decide, by decide, by decide, by decide⟩
+  have := parseGoAux_items (.junk "go".toList :: items) {} (("go".toList :: items.flatMap GoItem.tokens).length + 1)
+    (by intro it hit; rcases List.mem_cons.mp hit with rfl | h; exact hgo; exact hok it h)
+    (by simp [GoItem.tokens])
+  simpa [parseGoCommand, GoItem.tokens, GoItem.apply] using this
+
 end Walleye
